@@ -71,7 +71,7 @@ Proof.
                  | (if ?b then _ else _) = _ => destruct b
                  end;
           repeat match type of Hty with
-                 | match ?T with _ => _ end = _ => destruct T as [|[?|] ?]; try discriminate Hty
+                 | match ?T with _ => _ end = _ => destruct T as [|[|] ?]; try discriminate Hty
                  end; try reflexivity; try discriminate Hty.
           all: cbn; repeat match goal with |- context [match ?o with Some _ => true | None => false end] => destruct o; try discriminate Hty end; try reflexivity. }
         pose proof (go_tys_some _ _ Hall) as F. rewrite Forall_forall in F. exact (F x Hx). }
